@@ -1,5 +1,6 @@
 import OdcGeo.Model.C17
 import OdcGeo.Model.C17Glue
+import OdcGeo.Model.C17Path
 import OdcGeo.Spec.PySliceStep
 import OdcGeo.Model.C03
 import OdcGeo.Spec.PySlice
@@ -76,6 +77,9 @@ def run (args : List String) : Option String :=
       | ["O"] => some Idx2Spelling.other
       | _ => none)
     pure (fmtRes (fmtList fmtSS) (normSlice2d idx shape))
+  | ["ppath", xs, ys, closed] => do
+    let xs ← parseList? parseRat? xs; let ys ← parseOpt? (parseList? parseRat?) ys; let closed ← parseBool? closed
+    pure (fmtRes (fmtList (fun (p : Rat × Rat) => s!"{fmtRat p.1};{fmtRat p.2}")) (polygonPath xs ys closed))
   | ["norms", n, s] => do
     let n ← parseInt? n; let s ← parseSIdx? s
     pure (fmtSS (normSliceS s n))
